@@ -736,9 +736,23 @@ def covered(mode, prog):
     return True
 
 
+def _norm_m1(e):
+    """documented normalisation of the correspondence (expressions, both sides; same as C31): the exporter reads a product whose
+    first factor is the literal -1 as a negation and such a product as a non-first term of a sum as a subtraction; substituting a
+    negative literal actual for a dummy produces exactly these shapes.  R1 (-1)*x -> -x, R2 (-x)*y -> -(x*y), R3 a + (-x) -> a - x
+    (exact identities of the FIR value semantics)."""
+    if h(e) == 'bin' and str(e[1]) == 'mul' and h(e[2]) == 'neg':
+        if dumps(e[2][1]) == '(i 1)':
+            return [A('neg'), e[3]]
+        return [A('neg'), [A('bin'), A('mul'), e[2][1], e[3]]]
+    if h(e) == 'bin' and str(e[1]) == 'add' and h(e[3]) == 'neg':
+        return [A('bin'), A('sub'), e[2], e[3][1]]
+    return e
+
+
 def strip_prog(prog):
-    """normalisation of the correspondence: comment statements dropped (the transformation inserts marker comments)"""
-    return fir.canon(fir.map_program(fir.canon(prog), fs=lambda ss: [s for s in ss if not is_comment(s)]))
+    """normalisation of the correspondence: comment statements dropped (the transformation inserts marker comments), `_norm_m1`"""
+    return fir.canon(fir.map_program(fir.canon(prog), fe=_norm_m1, fs=lambda ss: [s for s in ss if not is_comment(s)]))
 
 
 # ---------------------------------------------------------------- the property
